@@ -91,6 +91,19 @@ def factory_specs(tier: str) -> list[dict]:
                 specs.append({"formalism": "helicity", "init": "full", "outer": outer,
                               "chains": [{"n": 4, "topo": topo, "perm": [0, 1, 2, 3], "res": res,
                                           "pc": {"0": True, "1": True, "2": True}}]})
+    # X -> R R with identical resonances decaying identically (identical spinning final
+    # particles): both nodes have the same name; sign law on the chain components only
+    tp = R.isobar_topologies(4)[1]
+    inter = sorted(tp.intermediate_edge_ids)
+    for pA, pR, sC in itertools.product((1, -1), (1, -1), ("1", "1/2")):
+        C = R.P("C", sC, 0.3, -1 if sC == "1" else 1)
+        D = R.P("D", 0, 0.4, -1) if sC == "1" else R.P("D", "1/2", 0.4, 1)
+        Rp = R.P("R1", 1, 1.5, pR)
+        outer = {"-1": R.P("A", 0, 4.0, pA), "0": C, "1": D, "2": C, "3": D}
+        specs.append({"formalism": "helicity", "init": "full", "outer": outer,
+                      "chains": [{"n": 4, "topo": 1, "perm": [0, 1, 2, 3],
+                                  "res": {str(inter[0]): Rp, str(inter[1]): Rp},
+                                  "pc": {"0": True, "1": True, "2": True}}]})
     return specs
 
 
@@ -215,8 +228,9 @@ def eval_case(case):
             rc = None
         desc = c02._describe({"reaction": {"spec": spec_h}, "config": {}})  # noqa: SLF001
     desc = f"{desc} | flags={flags}"
-    if c02._identical_with_spin(rh):  # noqa: SLF001
-        return {"outcome": "skipped-identical-with-spin", "evaluations": 0}
+    # identical spinning final-state particles: the sign law on the chain components is
+    # still well defined (oracle 1); the cross-formalism oracle 2 is skipped for them
+    identical_spin = c02._identical_with_spin(rh)  # noqa: SLF001
     viol, outcomes = [], {}
     n_eval = 0
     judged_pairs = 0
@@ -310,7 +324,7 @@ def eval_case(case):
                 else:
                     note(f"{label}:pair-ok(|F|={len(flipped)},prod-eta={want})")
     # ---------------- oracle 2: canonical equivalence
-    if rc is not None and not viol and flags.get("insert_child_helicities", True):
+    if rc is not None and not viol and flags.get("insert_child_helicities", True) and not identical_spin:
         fl_h = flags
         bh, mh = _formulate(rh, fl_h)
         bc, mc = _formulate(rc, {})
